@@ -104,12 +104,15 @@ fn eval_text(text: &str, words: &[(String, CW)], a: &mut Acc) {
 pub fn run() -> i32 {
     let mut r = Report::new("C06");
     let n = if r.thorough() { 4 } else { 3 };
-    r.rule = format!("every rule of rulegen({}) (full documented grammar: sets, optionals, ellipses, structures, variables, alphas, environment sets, special environment, condensed rules) (quick: plus every insertion rule of size 4) with a mandatory literal /ɮ/ planted in every input alternative (insertion: in every context environment), at the end, at the start and before the last input item; plus every condensed rule that pairs an insertion alternative with an insertion / substitution / deletion / metathesis alternative over 9 inputs x 3-5 outputs x 5 environments (own or shared), planted likewise; plus blank and comment-only lines; x hand-shaped words{}; whenever the call returns Ok the structural word must equal the input. Non-trivial = rule compiled and the call returned Ok.", n, if r.thorough() { " and all decorated words of W(I4,3)" } else { "" });
+    r.rule = format!("every rule of rulegen({}) (full documented grammar: sets, optionals, ellipses, structures, variables, alphas, environment sets, special environment, condensed rules) (quick: plus every insertion rule of size 4 and every size-4 rule with an ellipsis inside its input) with a mandatory literal /ɮ/ planted in every input alternative (insertion: in every context environment), at the end, at the start and before the last input item; plus every condensed rule that pairs an insertion alternative with an insertion / substitution / deletion / metathesis alternative over 9 inputs x 3-5 outputs x 5 environments (own or shared), planted likewise; plus blank and comment-only lines; x hand-shaped words{}; whenever the call returns Ok the structural word must equal the input. Non-trivial = rule compiled and the call returned Ok.", n, if r.thorough() { " and all decorated words of W(I4,3)" } else { "" });
     r.assumptions.push("thorough: size-4 rules are restricted to those containing a structure, %, $, an ellipsis, an optional, a variable, or an insertion/deletion/metathesis output (the cursor-logic constructs); all size <= 3 rules are included".into());
     let words = decorated_words(r.thorough());
     let mut bases = rulegen::bases_upto(n);
     // quick tier: the insertion rules of size 4 as well (two environment items: the shapes where a partial context match can be accepted)
     if !r.thorough() { bases.extend(rulegen::bases_of_size(4).into_iter().filter(|(b, rest)| b.is_insertion() && *rest == 2)); }
+    // quick tier: also the size-4 rules whose input holds an ellipsis between two items (`X ... Y > o`): with the planted literal after
+    // them these are the shapes in which every element after the ellipsis has to be tested (defect a19479e was found by the thorough tier only)
+    if !r.thorough() { bases.extend(rulegen::bases_of_size(4).into_iter().filter(|(b, rest)| *rest == 0 && b.ins.len() == 1 && b.ins[0].len() == 3 && b.ins[0][1] == "...")); }
     let mut tot = acc();
     let thorough = r.thorough();
     par_fold(bases.len(), 4, acc, |i, a| {
